@@ -1,5 +1,6 @@
 """C20 Disabled features and neutral settings are inert -- DESIGN 3/C20."""
 import copy
+import datetime as dt
 import itertools
 
 from .. import alphabets as A
@@ -27,6 +28,15 @@ BASES = {
     "rainfed_bunds_clay": A._b(soil="Clay", word="normal", irr="none", field="bunds50w20", crop="maize.2", iwc="FC", win="w2"),
     "const_wet30": A._b(soil="Loam", word="normal", irr="const8wet30"),
     "smt_wet40": A._b(soil="SandyLoam", word="dry", irr="smt_wet40", iwc="Pct50"),
+}
+# thermal-time crops whose first season matures much later (SoybeanGDD 195 d, PaddyRiceGDD 176 d under "normal") or earlier (WheatGDD 128 d)
+# than the nominal calendar length in the crop table (133 / 104 / 197 d): the default latest harvest date is weather-derived
+for _n in ("SoybeanGDD", "PaddyRiceGDD", "WheatGDD"):
+    A.CROPS.setdefault(_n, {"name": _n, "scale": None})
+THERMAL_BASES = {
+    "thermal_soybean": (A._b(soil="Loam", word="normal", crop="SoybeanGDD", win="w1"), 260),
+    "thermal_rice_off": (A._b(soil="ClayLoam", word="normal", crop="PaddyRiceGDD", win="w2", off=True, iwc="SAT"), 250),
+    "thermal_wheat_smt": (A._b(soil="SandyLoam", word="mix", crop="WheatGDD", win="w1", irr="smt"), 200),
 }
 A.IRR.setdefault("smt_wet40", {"method": 1, "kw": {"SMT": [70] * 4, "WetSurf": 40, "AppEff": 90}})
 
@@ -151,10 +161,25 @@ def t_rainfed_as(kind):
 def t_explicit_default_harvest(spec):
     if spec["crop"].get("harvest") is not None:
         return None
-    import datetime as dt
-
-    L = A.crop_length_days(spec["crop"])
     mm, dd = (int(x) for x in spec["crop"]["planting"].split("/"))
+    if spec["crop"]["name"].endswith("GDD"):
+        # thermal-time crop: days until the cumulative degree days of the FIRST season exceed the crop's maturity requirement, from the
+        # configured weather and the crop table's temperatures (independent degree-day model)
+        from aquacrop.entities.crops.crop_params import crop_params
+        from ..refmodels import ref_gdd
+
+        cp = {**crop_params[spec["crop"]["name"]], **(spec["crop"].get("kw") or {})}
+        wdf = S.make_weather(spec).set_index("Date")
+        d = S.parse_date(spec["start"])
+        while (d.month, d.day) != (mm, dd):
+            d += dt.timedelta(days=1)
+        cum, L = 0.0, 0
+        while cum <= float(cp["Maturity"]):
+            rec = wdf.loc[d + dt.timedelta(days=L)]
+            cum += ref_gdd(int(cp["GDDmethod"]), float(cp["Tupp"]), float(cp["Tbase"]), float(rec["MaxTemp"]), float(rec["MinTemp"]))
+            L += 1
+    else:
+        L = A.crop_length_days(spec["crop"])
     h = dt.datetime(1990, mm, dd) + dt.timedelta(days=L + 30)
     crop = dict(spec["crop"])
     crop["harvest"] = f"{h.month}/{h.day}"
@@ -191,7 +216,7 @@ TRANSFORMS = {
 
 def scenarios(tier, seed=0):
     names = list(TRANSFORMS)
-    for b in BASES:
+    for b in list(BASES) + list(THERMAL_BASES):
         for t in names:
             yield {"base": b, "ts": [t]}
         if tier != "quick":
@@ -207,7 +232,14 @@ _BASE = {}
 
 def base_for(b):
     if b not in _BASE:
-        spec = A.to_spec(BASES[b])
+        if b in THERMAL_BASES:
+            cfg, span = THERMAL_BASES[b]
+            spec = A.to_spec(cfg)
+            nseas = A.WINDOWS[cfg["win"]]["seasons"]
+            e = S.parse_date(spec["start"]).replace(year=S.parse_date(spec["start"]).year + nseas - 1) + dt.timedelta(days=span + 10)
+            spec["end"] = S.fmt_date(e)          # long enough for the weather-derived season plus its 30 days
+        else:
+            spec = A.to_spec(BASES[b])
         t, a, _ = run_plain(spec)
         if a:
             raise RuntimeError(f"C20 base run aborted: {a}")
@@ -250,11 +282,11 @@ def run(scn):
 
 def describe(tier):
     return {
-        "rule": "10 bases (rainfed on clay / with off-season / with a water table; threshold; interval; net; constant depth; schedule with bunds; constant depth and threshold irrigation with a partially wetted surface) x each of 21 neutral "
+        "rule": "15 bases (rainfed on clay / with off-season / with a water table; threshold; interval; net; constant depth; schedule with bunds; constant depth and threshold irrigation with a partially wetted surface; rainfed bunds; three THERMAL-TIME crops whose weather-derived first season is much longer or shorter than the nominal calendar length in the crop table, the explicit default harvest date there computed by the independent degree-day model) x each of 24 neutral "
                 "transformations (mulch / bund / CN-percentage parameters with the feature off, in the season and the fallow struct; parameters of non-selected strategies "
                 "incl. a schedule; efficiency and wetted fraction without irrigation; mulches on with cover 0 or factor 0; depth 0, empty schedule, daily or seasonal "
                 "maximum 0 (each equivalent to rainfed); explicit default latest-harvest date) alone and " + ("every 7th pair" if tier == "quick" else "ALL pairs") + "; all four tables bitwise equal to the base run.",
-        "bound": "singles complete; pairs " + ("1/7" if tier == "quick" else "complete (210 per base)"),
+        "bound": "singles complete; pairs " + ("1/7" if tier == "quick" else "complete (276 per base)"),
         "exhaustive": True,
         "witnesses": WITNESSES,
         "assumptions": ["a transformation is skipped on a base to which it does not apply (e.g. 'depth 0 = rainfed' on an irrigated base)"],
